@@ -432,12 +432,16 @@ func (t *timeline) recoverImage(img *Image) bool {
 		}
 	}
 	// recovery is idempotent
-	if t.initStorage(t.path + "|recover2") {
-		return false
-	}
-	if mm := t.checkAllDBs(adopted.Clone(), false); mm != nil {
-		t.violate("O-recover", "a second recovery changed the database: "+mm.detail, map[string]string{"how": "second-recovery", "class": mm.kind}, -1)
-		return false
+	if img.Sel.Once {
+		w.count("recovered_once_then_continued")
+	} else {
+		if t.initStorage(t.path + "|recover2") {
+			return false
+		}
+		if mm := t.checkAllDBs(adopted.Clone(), false); mm != nil {
+			t.violate("O-recover", "a second recovery changed the database: "+mm.detail, map[string]string{"how": "second-recovery", "class": mm.kind}, -1)
+			return false
+		}
 	}
 	// session of the continuation
 	w.Sess = &engine.Session{}
@@ -938,7 +942,7 @@ func (t *timeline) run() {
 			only := ""
 			if !full {
 				only = s.Table
-				if s.Kind == KCreate || s.Kind == KSelect || only == "" {
+				if s.Kind == KCreate || s.Kind == KSelect || only == "" || (p.Knobs.SparseObserve && s.Kind == KInsert) {
 					only = "-"
 				}
 			}
